@@ -98,15 +98,18 @@ def call_fit(it, kind):
 def cstr(it, s): return G.Ptr(it.array("str", [ord(c) for c in s] + [0]), 0)
 
 OPS = [("read", "A"), ("read", "B"), ("read", "bad"), ("read", "bad2"), ("read", "none"), ("read", "out"), ("fit", "ok1"), ("fit", "ok2"), ("fit", "badargs"), ("fit", "fail"),
-       ("key", "NOTE", "a'b"), ("key", "ORDER7", "x"), ("rmkey", "NOTE"), ("rmkey", "GEOMETRY"), ("convolve", 0, 3), ("convolve", 1, 2), ("permute", "rev"), ("permute", "bad"), ("write", "out")]
+       ("key", "NOTE", "a'b"), ("key", "NOTE", "a longer value 42"), ("key", "ORDER7", "x"), ("rmkey", "NOTE"), ("rmkey", "GEOMETRY"), ("convolve", 0, 3), ("convolve", 1, 2), ("permute", "rev"), ("permute", "bad"), ("write", "out")]
 
-def run_history(hist):
+def run_history(arg):
+    hist, fail_at = arg if (len(arg) == 2 and isinstance(arg[0], tuple) and arg[0] and isinstance(arg[0][0], tuple)) else (arg, None)
     t0 = time.time(); tag = "history " + " ; ".join("o%d.%s(%s)" % (o[0], o[1], ",".join(str(x) for x in o[2:])) for o in hist); bad = []
+    if fail_at is not None: tag += " with allocation %d failing" % fail_at
     try:
-        prog, params = PROG; disk = make_disk()
-        objs = [T.new_object(prog, params, CONSTS, disk, X14.RatDom()) for _ in range(1 + max(o[0] for o in hist))]
+        prog, params = PROG; disk = make_disk(); faults = H.AllocFaults(fail_at)
+        objs = [T.new_object(prog, params, CONSTS, disk, X14.RatDom(), faults) for _ in range(1 + max(o[0] for o in hist))]
         for step, op in enumerate(hist):
             it, al = objs[op[0]]; kind = op[1]; before = state(it, al); it.globals["vp_thrown"].cells[0] = 0
+            faults.enabled = kind in ("read", "fit", "convolve"); faults.fired = False      # the functions extracted with R31 (allocation may throw)
             where = "step %d %s" % (step, "o%d.%s(%s)" % (op[0], kind, ",".join(str(x) for x in op[2:])))
             expect = None          # "ok" / "fail" / None
             try:
@@ -133,7 +136,10 @@ def run_history(hist):
                     it.call("write_fits", [cstr(it, op[2])]); expect = "ok" if before[0] == "table" else "fail"
             except G.ExecError as ex:
                 bad.append("%s: %s: %s" % (where, type(ex).__name__, ex)); break
+            faults.enabled = False
             thrown = bool(it.globals["vp_thrown"].cells[0]); after = state(it, al)
+            if faults.fired:
+                expect = "fail"; where += " [std::bad_alloc injected]"
             if after[0] == "broken": bad.append("%s leaves an invalid object: %s" % (where, "; ".join(after[1])[:300])); break
             if thrown and not (after == before or (after[0] == "empty" and after[1] == [])) and not (after[0] == "empty" and before[0] == "empty"):
                 bad.append("%s failed but left the object neither unchanged nor empty" % where); break
@@ -151,7 +157,7 @@ def run_history(hist):
                 try: it.call("vp_destructor", [])
                 except G.ExecError as ex: bad.append("destructor of o%d: %s: %s" % (k, type(ex).__name__, ex)); continue
                 if al.live: bad.append("destructor of o%d leaves %d blocks (%d bytes) allocated" % (k, len(al.live), al.cur))
-        return [(tag, not bad, "; ".join(bad)[:600], time.time() - t0)]
+        return [(tag, not bad, "; ".join(bad)[:600], time.time() - t0, faults.count)]
     except Exception as ex:
         import traceback
         return [(tag + " execution", False, "%s: %s %s" % (type(ex).__name__, ex, traceback.format_exc()[-300:]), time.time() - t0)]
@@ -185,25 +191,34 @@ def main():
     rnd = random.Random(vlib.SEED + 20); ops01 = ops0 + [(1,) + o for o in OPS]
     for _ in range(400 if not thorough else 6000): hists.append(tuple(rnd.choice(ops01) for _ in range(rnd.randint(4, 25 if thorough else 12))))
     hists = list(dict.fromkeys(hists)); t0 = time.time()
-    with mp.Pool(min(vlib.NCORES, 16)) as pool: res = pool.map(run_history, hists, chunksize=8)
+    with mp.Pool(min(vlib.NCORES, 16)) as pool:
+        res = pool.map(run_history, [(h, None) for h in hists], chunksize=8)
+        # every position of one injected allocation failure (std::bad_alloc from allocate<T>) in read / fit / convolve
+        inj = []
+        for h, r in zip(hists, res):
+            if len(r[0]) > 4 and r[0][1] and (len(h) <= 2 or (len(h) == 3 and (thorough or hash(h) % 4 == 0)) or (len(h) > 3 and thorough and hash(h) % 10 == 0)):
+                inj += [(h, j) for j in range(r[0][4])]
+        res2 = pool.map(run_history, inj, chunksize=16)
+    hists_all = hists + [h for h, j in inj]; res = res + res2
     flat = [o for r in res for o in r]
     rep.add_group("E3 execution of operation histories over the unified GOTO program of the extracted splinetable members (BOUNDED)", len(flat), sum(1 for o in flat if o[1]), time.time() - t0,
-                  bounded="all histories of length <= 2 over %d operations on one object, all of length 3%s over %d core operations on two objects sharing a disk, %d random histories of length 4..%d over both objects (seed %d)" % (len(OPS), "/4" if thorough else "", len(core), 6000 if thorough else 400, 25 if thorough else 12, vlib.SEED), name="C20-histories")
-    viol = [(h, o) for h, r in zip(hists, res) for o in r if not o[1]]
+                  bounded=("%d of these runs have one injected std::bad_alloc (every allocation position of the histories of length <= 2 and of a sample of the longer ones); " % len(inj)) + "all histories of length <= 2 over %d operations on one object, all of length 3%s over %d core operations on two objects sharing a disk, %d random histories of length 4..%d over both objects (seed %d)" % (len(OPS), "/4" if thorough else "", len(core), 6000 if thorough else 400, 25 if thorough else 12, vlib.SEED), name="C20-histories")
+    viol = [(h, o) for h, r in zip(hists_all, res) for o in r if not o[1]]
     if viol:
         exe, ddir = build_native()
         for h, o in viol[:40]:
             rp = None
             if exe:
-                toks = " ".join(__import__("shlex").quote("%d:%s" % (op[0], ":".join(str(x) for x in op[1:]))) for op in h)
-                rc, out, w = vlib.sh("ASAN_OPTIONS=detect_leaks=0 timeout -s KILL 120 %s %s %s 2>&1 | grep -v '^Factorize\\|^Solve\\|^Done\\|^Calculat\\|^Comput\\|^Array\\|^NNLS\\|^Reformat\\|^Process\\|^Convolv\\|^\\s*$' | tail -40; exit ${PIPESTATUS[0]}" % (exe, ddir, toks), timeout=200)
-                rp = dict(replayed=(rc == 1 or "ERROR: AddressSanitizer" in out or "runtime error" in out), input="replay_history <model disk> " + toks, observed=("exit %d\n" % rc) + out[-3000:], command="tools/replay/replay_history.cpp (real library, counting allocator, ASan/UBSan)")
+                mfa = __import__("re").search(r"with allocation (\d+) failing", o[0])
+                toks = ("failalloc:%s " % mfa.group(1) if mfa else "") + " ".join(__import__("shlex").quote("%d:%s" % (op[0], ":".join(str(x) for x in op[1:]))) for op in h)
+                rc, out, w = vlib.sh("ASAN_OPTIONS=detect_leaks=0:allocator_may_return_null=1 timeout -s KILL 120 %s %s %s 2>&1 | grep -v '^Factorize\\|^Solve\\|^Done\\|^Calculat\\|^Comput\\|^Array\\|^NNLS\\|^Reformat\\|^Process\\|^Convolv\\|^\\s*$' | tail -40; exit ${PIPESTATUS[0]}" % (exe, ddir, toks), timeout=200)
+                rp = dict(replayed=(rc == 1 or "ERROR: AddressSanitizer" in out or "runtime error" in out or rc in (134, 139)), input="replay_history <model disk> " + toks, observed=("exit %d\n" % rc) + out[-3000:], command="tools/replay/replay_history.cpp (real library, counting allocator, ASan/UBSan)")
             rep.add_violation("C20-histories", o[0].replace(" ", "_")[:170], o[0][:300] + ": " + o[2], trace=o[2], replay=rp)
         for h, o in viol[40:]: rep.add_violation("C20-histories", o[0].replace(" ", "_")[:170], o[0][:300] + ": " + o[2], trace=o[2], replay=dict(replayed=False, note="only the first 40 violating histories are replayed natively"))
     rep.samples += [o[0][:200] for o in flat[40:43]]
     rep.extra["evaluations"] = len(hists); rep.extra["distinct_nontrivial"] = len([h for h in hists if len(h) >= 2])
     rep.extra["rule"] = "one evaluation = one operation history executed from the extracted code with validity, failure-atomicity and allocator-reachability checked after every operation and the destructor at the end; non-trivial = at least two operations; histories are distinct tuples"
-    rep.assume("PARTIAL: moving (move constructor / assignment), operator==, the memory back end, the stacking constructor and injected allocation failure are NOT covered; exceptions are a ghost flag + early return (R7), catch(...) handlers dropped (R22)",
+    rep.assume("PARTIAL: moving (move constructor / assignment), operator==, the memory back end and the stacking constructor are NOT covered; allocation failure is injected only in read_fits_core, fit and convolve (R31: allocate<T> may throw); in the key-store functions the catch(...) handlers are dropped (R22) and permuteDimensions / write_fits_core use new[] only - no failure is injected there; exceptions are a ghost flag + early return (R7)",
                "BOUNDED: enumerated / random histories over a fixed alphabet: reads of two valid files, two corrupt files, a missing file and a file written earlier in the history; fits (1-d, 2-d, invalid arguments, fitter failure); key insertion / rejection / removal; convolution (valid arguments only); valid and invalid permutations; writes",
                "cfitsio (specs/fitsmodel.py), the C fitter (glamfit_complex returns success after writing the coefficients, or a failure code without writing), cholmod and convoluted_blossom are assumed contracts supplied by the interpreter",
                "the oracle for outcomes: reads of valid files into empty tables, fits of valid problems into empty tables, valid keys, valid convolutions / permutations and writes of populated tables must succeed; reads into populated tables, corrupt / missing files, invalid fit arguments, fitter failure, reserved keys, invalid permutations and writes of empty tables must fail; a fit into a populated table may refuse or replace")
